@@ -18,7 +18,7 @@ sys.path.insert(0, str(Path(__file__).resolve().parent.parent))
 from mc import common
 
 R = common.bootstrap()
-from mc import hist as H, world as W  # noqa: E402
+from mc import dsched, explore, hist as H, world as W  # noqa: E402
 
 PID = 'C04'
 REPOS = {
@@ -193,6 +193,42 @@ def run_batch(args):
     return n, outcomes, vs
 
 
+@explore.register
+def run_order(params, prefix):
+    """One restore of a damaged repository on the coroutine backend; the explorer enumerates the
+    completion orders of the downloads (the failing one may complete first, in the middle or last)."""
+    kind, spec = params['repo'], tuple(tuple(x) if isinstance(x, list) else x for x in params['spec'])
+    s = setup(kind)
+    sc = H.worker_scratch()
+    target = sc.sub()
+    store = W.Store(damage(s['o'], spec))
+
+    async def go():
+        repo = await W.a_open(store, s['user'], N=params['N'], backend=W.AMemBackend)
+        with W.captured():
+            return await repo.restore(path=target)
+
+    x = dsched.run_one(lambda loop, sch: go(), prefix, horizon=6000, want_env=True)
+    out = {'points': x.points, 'err': None, 'viol': [], 'order': hash(tuple(store.calls))}
+    tree = {p[len(str(target)):]: v[0] for p, v in W.read_tree(target).items()}
+    shutil.rmtree(target, ignore_errors=True)
+    if x.err is not None:
+        out['err'] = 'hang' if isinstance(x.err, dsched.Hang) else 'capped' if isinstance(x.err, dsched.Horizon) else 'diverged'
+        out['errmsg'] = str(x.err)[:200]
+        out['outcome'] = out['obs'] = ('ERR', out['err'])
+        return out
+    if x.exc is not None:
+        out['outcome'] = ('error', type(x.exc).__name__)
+    elif tree == expected_for(s, spec):
+        out['outcome'] = ('intact',)
+    else:
+        out['outcome'] = ('silent-wrong',)
+        out['viol'].append(({'repo': kind, 'mode': 'completion-orders', 'damage': spec[0], 'area': area(spec[1]),
+                             'what': 'silent-wrong-restore'}, {'params': params, 'spec': spec}))
+    out['obs'] = (out['outcome'], tuple(store.calls))
+    return out
+
+
 def single_damages(s, t):
     names = sorted(k for k in s['o'] if k.startswith(('data/', 'snapshots/')))
     out = []
@@ -230,6 +266,9 @@ def reduced_damages(s):
 
 
 def replay(case):
+    if 'params' in case:
+        r = run_order(case['params'], case.get('choices', []))
+        return {'violations': [v[0] for v in r['viol']], 'outcome': r['outcome']}
     spec = case['spec']
 
     def tup(x):
@@ -280,6 +319,21 @@ def main():
                 outcomes[a] += oc[a]
             for sig, detail in vs:
                 chk.violation(sig, detail)
+        # every completion order of the downloads, for one damage per chunk object
+        tot = explore.Agg()
+        for kind in REPOS:
+            s_ = _SETUP[kind]
+            for nme in sorted(k for k in s_['o'] if k.startswith('data/')):
+                for spec in (('flip', nme, 5), ('trunc', nme, 3)) + ((('delete', nme),) if t == 'thorough' else ()):
+                    for N in ((2,) if t == 'quick' else (1, 2, 3)):
+                        agg, info = explore.explore(run_order, {'repo': kind, 'spec': list(spec), 'N': N,
+                                                                 '_free': ['env-complete']}, 0)
+                        for sig, d in agg.viol:
+                            chk.violation(sig, d)
+                        for kk, v in agg.errs.items():
+                            chk.harness_error(f'{kk}: {v[2]}')
+                        tot.merge(agg)
+        n += tot.executions
         chk.sample({'repo': 'aes', 'damage': ['flip', '<every object>', '<every bit>']})
         chk.sample({'repo': 'unenc', 'damage': ['pair', ['trunc', 'data/..', 7], ['copy', 'snapshots/A', 'snapshots/B']]})
         chk.coverage.update({
@@ -287,7 +341,8 @@ def main():
             'rule': 'every bit flip / truncation length / extension / swap / replay / deletion of every chunk and snapshot '
                     'object of 3 repositories, pairs of reduced damages on two objects, each followed by an unfiltered restore; '
                     'every case is distinct by construction; variants with a long-lived Repository and with a cache-sharing retry',
-            'per_repository': counts, 'outcomes': outcomes,
+            'per_repository': counts, 'outcomes': outcomes, 'completion_order_executions': tot.executions,
+            'completion_orders': len(tot.orders),
         })
         chk.assumptions += ['objects of a few hundred bytes', 'adversary does not know the keys',
                             'a removed snapshot object is indistinguishable from a deleted snapshot: the remaining snapshots define the expected tree']
